@@ -195,6 +195,16 @@ def directed_unions(ctx):
             ctx.violation("a combinator check raised " + type(e).__name__, operands=[safe_repr(x) for x in xs])
             continue
         ctx.count("directed_union_forms", len(forms))
+        # iteration exposes the declared members: for operands that are not typed unions themselves, exactly the operands, in order
+        from d42.declaration.types import AnySchema
+        from niltype import Nil
+        if all(not (isinstance(x, AnySchema) and x.props.get("types") is not Nil) for x in xs):
+            for name, u in forms:
+                got = [safe_repr(m) for m in u]
+                if got != [safe_repr(x) for x in xs]:
+                    ctx.violation("iteration over a union does not expose its declared members", form=name,
+                                  operands=[safe_repr(x) for x in xs], iterated=got)
+                    return
         for v in probes:
             want = any(ok(x, v) for x in xs)
             for name, u in forms:
